@@ -1606,3 +1606,89 @@ func runScopeChain(c *Ctx, r *Reporter) {
 		r.Check(good, fd.QName()+"#binds-through:"+spec.callee, p.Rel(fd.Decl.Pos()), spec.what, fmt.Sprintf("%s must go through e.scope.%s exactly once and through no other scope operation (found %d set, %d update, on the current scope: %v): %s", spec.fn, spec.callee, nSet, nUpd, onCurrent, spec.what))
 	}
 }
+
+// R-LOOPVARINIT: the loop variable of a for statement comes into being after the range operands were evaluated.
+//
+// `for x := range x` iterates over the x of the enclosing scope (the parser resolves the operand there); the
+// evaluator therefore evaluates the operands first and creates the loop variable afterwards. A loop variable that
+// is created (zero-initialised) first shadows the operand: the loop runs over a zero value of another type.
+var ruleLoopVarInit = &Rule{
+	ID:    "R-LOOPVARINIT",
+	Doc:   "in the evaluator every creation of a for loop's variable (scope.set with the LoopVar's name) is preceded by the evaluation of the range operands and followed by none",
+	Floor: 3,
+	Run:   runLoopVarInit,
+}
+
+func runLoopVarInit(c *Ctx, r *Reporter) {
+	p, pkg := evaluatorPkg(c, r)
+	if pkg == nil {
+		return
+	}
+	isRangeEval := func(call *ssa.Call) bool {
+		sc := call.Call.StaticCallee()
+		if sc == nil {
+			return false
+		}
+		switch sc.Name() {
+		case "newRange", "newStepRange", "evalNum":
+			return true
+		case "eval":
+			return len(call.Call.Args) > 1 && mentionsField(call.Call.Args[1], "Range", 4)
+		}
+		return false
+	}
+	n := 0
+	for _, fn := range ssaFuncsOf(p, pkg) {
+		var evals []*ssa.Call
+		for _, b := range fn.Blocks {
+			for _, ins := range b.Instrs {
+				if call, ok := ins.(*ssa.Call); ok && isRangeEval(call) {
+					evals = append(evals, call)
+				}
+			}
+		}
+		k := 0
+		for _, b := range fn.Blocks {
+			for _, ins := range b.Instrs {
+				call, ok := ins.(*ssa.Call)
+				if !ok || call.Call.StaticCallee() == nil || call.Call.StaticCallee().Name() != "set" || len(call.Call.Args) < 3 {
+					continue
+				}
+				if rn := call.Call.StaticCallee().Signature.Recv(); rn == nil || namedOf(rn.Type()) == nil || namedOf(rn.Type()).Obj().Name() != "scope" {
+					continue
+				}
+				name := call.Call.Args[1]
+				isLoopVar := mentionsField(name, "LoopVar", 5)
+				if !isLoopVar {
+					// loopVar.Name with loopVar a *parser.Var parameter
+					if u, ok := name.(*ssa.UnOp); ok {
+						if fa, ok := u.X.(*ssa.FieldAddr); ok {
+							if prm, ok := fa.X.(*ssa.Parameter); ok && strings.Contains(strings.ToLower(prm.Name()), "loopvar") {
+								isLoopVar = true
+							}
+						}
+					}
+				}
+				if !isLoopVar {
+					continue
+				}
+				n++
+				k++
+				before, after := false, false
+				for _, e := range evals {
+					if instrDominates(e, call) {
+						before = true
+					}
+					if instrDominates(call, e) || (call.Block() != e.Block() && reachesBlock(call.Block(), e.Block()) && !reachesBlock(e.Block(), call.Block())) {
+						after = true
+					}
+				}
+				r.Check(before && !after, fmt.Sprintf("%s#loopvar-created-after-operands[%d]", ssaQName(fn), k), p.Rel(instrPos(call)), "the range operands are evaluated before the loop variable exists",
+					"the loop variable is put into the scope before the range operands are (all) evaluated: in `for x := range x` or `for n := range (len n)` the operand then reads the loop variable's zero value instead of the variable of the enclosing scope (bad range type, wrong count, or an any recording the wrong type)")
+			}
+		}
+	}
+	if n == 0 {
+		r.Undecided("no creation of a loop variable found in the evaluator")
+	}
+}
